@@ -167,6 +167,20 @@ def jnorm(v):
     return json.loads(json.dumps(v, default=repr))
 
 
+def same(a, b):
+    """Equality of two JSON-normalised observations that keeps True/False apart from 1/0 (a Boolean
+    silently turned into a number is a difference for these checks)."""
+    if isinstance(a, list) and isinstance(b, list):
+        return len(a) == len(b) and all(same(x, y) for x, y in zip(a, b))
+    if isinstance(a, dict) and isinstance(b, dict):
+        return a.keys() == b.keys() and all(same(a[k], b[k]) for k in a)
+    if isinstance(a, bool) != isinstance(b, bool):
+        return False
+    if isinstance(a, (list, dict)) or isinstance(b, (list, dict)):
+        return False
+    return a == b
+
+
 def load_known(prop):
     path = os.path.join(VERIF, 'known_findings.json')
     if not os.path.exists(path):
@@ -220,7 +234,7 @@ def main(prop, tier='quick', seed=0, replay=None, only=None, jobs=None):
     if replay:
         item = json.load(open(replay))
         r = run_child('real', prop, [dict(cond=item['cond'], args=item['args'])])['results'][0]
-        bad = r['exp'] is None or jnorm(r['got']) != jnorm(r['exp'])
+        bad = r['exp'] is None or not same(jnorm(r['got']), jnorm(r['exp']))
         print(json.dumps(r, default=repr))
         print('REPRODUCED' if bad else 'NOT-REPRODUCED')
         return 1 if bad else 0
@@ -253,11 +267,11 @@ def main(prop, tier='quick', seed=0, replay=None, only=None, jobs=None):
         if isinstance(a['got'], list) and a['got'] and a['got'][0] == 'GAP':
             trace_gaps += 1
             continue
-        if jnorm(a['got']) != jnorm(b['got']) or jnorm(a['exp']) != jnorm(b['exp']):
+        if not same(jnorm(a['got']), jnorm(b['got'])) or not same(jnorm(a['exp']), jnorm(b['exp'])):
             harness_errors.append(f"model/real disagree: cond={a['cond']} args={a['args']} model={a['got']!r} real={b['got']!r}")
             continue
         traces_ok += 1
-        if b['exp'] is None or jnorm(b['got']) != jnorm(b['exp']):
+        if b['exp'] is None or not same(jnorm(b['got']), jnorm(b['exp'])):
             trace_violations.append(dict(cond=b['cond'], args=b['args'], got=b['got'], exp=b['exp'], source='trace'))
     entered = rm['entered']
     unreached = []
@@ -312,7 +326,7 @@ def main(prop, tier='quick', seed=0, replay=None, only=None, jobs=None):
     if cex:
         rr2 = run_child('real', prop, [dict(cond=x['cond'], args=x['args']) for x in cex])['results']
         for x, r in zip(cex, rr2):
-            bad = r['exp'] is None or jnorm(r['got']) != jnorm(r['exp'])
+            bad = r['exp'] is None or not same(jnorm(r['got']), jnorm(r['exp']))
             x.update(got=r['got'], exp=r['exp'], reproduced=bad)
             replayed.append(x)
             if not bad:
